@@ -26,7 +26,8 @@ type Case = hc.Case
 type Op = hc.Op
 
 type iterState struct {
-	started, over bool // over: exhausted or panicked
+	started, over bool // over: panicked, or a clause was reported: later calls are not judged
+	ended         bool // reported exhaustion: a later call may report it again or panic, never hand out an item
 	snap          map[string]int
 	snapSize      int
 	yielded       int
@@ -84,7 +85,7 @@ func monitor(c Case) (kind, what string, params map[string]interface{}) {
 	mutate := func(class string, addRemove bool) {
 		for _, it := range its {
 			if it.started && !it.over {
-				it.touched = true
+				it.touched = true // (also for an iterator that has reported exhaustion: lastMid names the call since)
 				it.lastMid = class
 				if addRemove {
 					it.addRemoved = true
@@ -167,6 +168,20 @@ func monitor(c Case) (kind, what string, params map[string]interface{}) {
 			if it.over {
 				continue
 			}
+			if it.ended {
+				// "never silently returns wrong data ... reports exhaustion only if it has yielded the whole snapshot":
+				// what an iterator yields is a prefix of its snapshot, so after it has reported exhaustion there is
+				// nothing left that it could correctly hand out (the snapshot was taken at the first Next, however
+				// many elements it had). Reporting exhaustion again or panicking are both left open here.
+				if got != "end" && got != "panic" {
+					it.over = true
+					return fail("item-after-exhaustion", fmt.Sprintf("%s: Next returned %s after this iterator had already reported exhaustion (%d of the %d snapshot elements yielded; call since: %s)", at, got, it.yielded, it.snapSize, it.lastMid), it)
+				}
+				if got == "panic" {
+					it.over = true
+				}
+				continue
+			}
 			if !it.started {
 				it.started = true
 				it.snap, it.snapSize = contents()
@@ -178,11 +193,13 @@ func monitor(c Case) (kind, what string, params map[string]interface{}) {
 					return fail("unchanged-panics", at+": Next panicked although the container was not modified since the first Next", it)
 				}
 			case "end":
-				it.over = true
+				it.ended = true
 				if it.addRemoved {
+					it.over = true
 					return fail("add-remove-no-panic", fmt.Sprintf("%s: an element was added or removed (%s) during iteration and Next reported exhaustion instead of panicking", at, it.lastMid), it)
 				}
 				if it.yielded != it.snapSize {
+					it.over = true
 					k := "early-exhaustion"
 					if !it.touched {
 						k = "unchanged-wrong"
@@ -433,11 +450,14 @@ func (r *runner) exhaustive(maxN int, deadline time.Time) bool {
 						base.Ops = append(base.Ops, Op{Name: "update", A: i, B: 2 * p})
 					}
 				}
-				for k := 0; k <= n; k++ {
+				for k := 0; k <= n+1; k++ { // k == n+1: the iterator has reported exhaustion (for n == 0: of an empty snapshot)
 					for _, mid := range midOps(kind, n) {
 						after := 3
 						if mid == nil {
 							after = n - k + 2 // unchanged container: run to exhaustion and once more
+							if k == n+1 {
+								continue // the same calls as k == n
+							}
 						}
 						c := scenario(base, k, mid, after)
 						r.res.Evaluations++
@@ -499,6 +519,9 @@ func randomScenario(rd *vlib.Rand, res *vlib.Result) Case {
 	}
 	size := sh.Size() // guarded; the shadow only steers the generation
 	k := rd.Intn(size + 1)
+	if rd.Chance(1, 8) {
+		k = size + 1 // the iterator has reported exhaustion before the mid-iteration call
+	}
 	var mid *Op
 	if pq {
 		keys := sh.QueueKeys()
@@ -549,6 +572,9 @@ func randomScenario(rd *vlib.Rand, res *vlib.Result) Case {
 	after := 3
 	if mid == nil || rd.Chance(1, 3) {
 		after = size - k + 2
+		if after < 2 {
+			after = 2
+		}
 	}
 	if mid == nil {
 		res.Count("mid-none")
@@ -662,7 +688,7 @@ func nontrivial(c Case) bool {
 func main() {
 	env := vlib.GetEnv()
 	res := vlib.NewResult("C15", "heap half: scenarios = container state x iterator position (0..len Nexts done) x one mid-iteration call "+
-		"(Push of every relative priority, Pop incl. the pop that empties, Update of an existing key to a lower / higher / equal priority, Update of a new key, Remove present / absent, Grow, Shrink, none) "+
+		"(also after the Next that reported exhaustion, incl. of an empty container; Push of every relative priority, Pop incl. the pop that empties, Update of an existing key to a lower / higher / equal priority, Update of a new key, Remove present / absent, Grow, Shrink, none) "+
 		"x 3 further Nexts (to exhaustion when unchanged), on xheap.Heap and xheap.PriorityQueue; exhaustive for every insertion order and tie pattern of <= 3 (quick) / <= 5 (thorough) elements, "+
 		"plus random larger states (<= 40 elements, 3 orders, less/cmp constructors) and, in every tier, one heap and one queue of 250..450 elements with one scenario per class of mid-iteration call, the unchanged drain and the exhausted-then-mutated iterator; non-trivial = at least 2 Nexts and a mutating call after the iterator was made (exhaustive part: each state counts once); distinct = different line sequence")
 	res.Property = "C15"
